@@ -729,6 +729,21 @@ func partBMany(run *hx.Run, r *hx.Rand) {
 // ---------------------------------------------------------------------------------------
 // through the binary (part E-many)
 
+var (
+	cachePoolOnce sync.Once
+	cachePool     chan string
+)
+
+func cacheDirs(tmpRoot string) chan string {
+	cachePoolOnce.Do(func() {
+		cachePool = make(chan string, 16)
+		for i := 0; i < 16; i++ {
+			cachePool <- filepath.Join(tmpRoot, fmt.Sprintf("cache-%d", i))
+		}
+	})
+	return cachePool
+}
+
 type binResult struct {
 	code           int
 	stdout, stderr string
@@ -737,7 +752,14 @@ type binResult struct {
 func runBufBin(bufBin, tmpRoot, dir, gmp string, args []string) binResult {
 	c := exec.Command(bufBin, args...)
 	c.Dir = dir
-	c.Env = append(os.Environ(), "HOME="+tmpRoot, "BUF_CACHE_DIR="+filepath.Join(tmpRoot, "cache"))
+	// one cache directory per process in flight: concurrent buf PROCESSES sharing one BUF_CACHE_DIR
+	// race on the well-known-types cache (bufwktstore.GetBucket: is-empty / diff / delete-all /
+	// copy without a lock; one process can delete what another is reading: "stat …/cpp_features.proto:
+	// file does not exist"). C02 quantifies over schedules inside one process, so that race is kept
+	// out of this check (it produced `binary-nondeterministic-ls-files` twice under machine load).
+	cache := <-cacheDirs(tmpRoot)
+	defer func() { cacheDirs(tmpRoot) <- cache }()
+	c.Env = append(os.Environ(), "HOME="+tmpRoot, "BUF_CACHE_DIR="+cache)
 	if gmp != "" {
 		c.Env = append(c.Env, "GOMAXPROCS="+gmp)
 	}
